@@ -202,6 +202,19 @@ impl<S: Sut> World<S> {
         }
     }
 
+    /// A false rejection by Map::validate_op of the nested-value kind (recorded finding F5) does not change
+    /// any state: it is recorded softly so that the run goes on and everything after it is still judged
+    /// (the whole list of soft failures is compared with the pinned baseline, see run::judge).
+    pub fn soft_validate(&mut self, clause: &str, v: &Verdict, expected_ok: bool, detail: String) -> bool {
+        let is_map = matches!(self.family, Family::Dotted(Shape::Map(_)));
+        let nested_kind = matches!(v, Verdict::Err { kind, .. } if kind == "Value" || kind == "SourceOrder");
+        if is_map && expected_ok && nested_kind {
+            self.soft.push(Failure { clause: clause.to_string(), step: self.step, detail });
+            true
+        } else {
+            false
+        }
+    }
     fn fail<T>(&self, clause: &str, detail: String) -> Result<T, Failure> {
         Err(Failure { clause: clause.to_string(), step: self.step, detail })
     }
@@ -226,8 +239,10 @@ impl<S: Sut> World<S> {
     pub fn same_side(&self, a: usize, b: usize) -> bool {
         ((self.partition >> a) & 1) == ((self.partition >> b) & 1)
     }
+    /// everything an op of `k` depends on — what its author had applied and what the context it was built
+    /// from had observed — is in `k` too
     pub fn causally_closed(&self, k: KSet) -> bool {
-        self.aops.iter().enumerate().all(|(i, o)| !has(k, i) || (o.k_gen & !k) == 0)
+        self.aops.iter().enumerate().all(|(i, o)| !has(k, i) || ((o.k_gen | o.k_read) & !k) == 0)
     }
     pub fn deliverable(&self, node: usize, ix: usize) -> bool {
         let k = self.nodes[node].k;
@@ -236,7 +251,7 @@ impl<S: Sut> World<S> {
         }
         match self.cfg.disc {
             Disc::Any => true,
-            Disc::Causal => (self.aops[ix].k_gen & !k) == 0,
+            Disc::Causal => ((self.aops[ix].k_gen | self.aops[ix].k_read) & !k) == 0,
             Disc::Fifo => {
                 let a = self.ops[ix].author;
                 let s = self.ops[ix].seq;
@@ -477,12 +492,26 @@ impl<S: Sut> World<S> {
                 self.stats.clock_jumps += 1;
                 Ok(true)
             }
-            Ev::Read { node } => {
+            Ev::Read { node, from } => {
                 if !self.up(*node) {
                     return Ok(false);
                 }
-                let x = &mut self.nodes[*node];
-                x.held = Some(Held { state: x.state.clone().unwrap(), k: x.k, issued_at: x.issued });
+                match from {
+                    Some(f) if *f != *node => {
+                        // a context read at another replica may only feed removes (an add context from there
+                        // could re-spend a dot), and never under causal delivery, whose premise is that an
+                        // op depends only on what its author had applied
+                        if !self.up(*f) || self.cfg.disc == Disc::Causal {
+                            return Ok(false);
+                        }
+                        let (st, k) = (self.nodes[*f].state.clone().unwrap(), self.nodes[*f].k);
+                        self.nodes[*node].held = Some(Held { state: st, k, issued_at: u32::MAX });
+                    }
+                    _ => {
+                        let x = &mut self.nodes[*node];
+                        x.held = Some(Held { state: x.state.clone().unwrap(), k: x.k, issued_at: x.issued });
+                    }
+                }
                 Ok(true)
             }
             Ev::Edit { node, tag, desc, held, via } => self.do_edit(*node, *tag, desc, *held, *via),
@@ -616,9 +645,11 @@ impl<S: Sut> World<S> {
         // which read does the client use?
         let needs_fresh_dot = leaf_spends_context(desc);
         let mut use_held = false;
-        if held {
+        // a read taken at another replica only ever feeds the remove context of a dot-based edit
+        let foreign_ok = matches!(desc, Desc::D(_)) && !needs_fresh_dot;
+        if held && !(self.nodes[node].held.as_ref().map_or(false, |h| h.issued_at == u32::MAX) && !foreign_ok) {
             if let Some(h) = self.nodes[node].held.as_ref() {
-                use_held = !needs_fresh_dot || h.issued_at == self.nodes[node].issued || self.cfg.misuse;
+                use_held = !needs_fresh_dot || h.issued_at == self.nodes[node].issued || (self.cfg.misuse && h.issued_at != u32::MAX);
             }
         }
         let (read_state, k_read) = if use_held {
@@ -680,7 +711,10 @@ impl<S: Sut> World<S> {
                 Ok(Verdict::Ok) => {}
                 Ok(v) => {
                     if !(self.cfg.misuse && matches!(desc, Desc::Lww { reuse_marker: true, .. })) {
-                        return self.fail("validate.origin", format!("node {} rejects the op it just produced through the API: {} -> {}", node, op_dbg, v.show()));
+                        let d = format!("node {} rejects the op it just produced through the API: {} -> {}, expected Ok", node, op_dbg, v.show());
+                        if !self.soft_validate("validate.origin", &v, true, d.clone()) {
+                            return self.fail("validate.origin", d);
+                        }
                     }
                 }
                 Err(p) => return self.fail("validate.origin", format!("validate_op panicked: {}", p)),
@@ -807,10 +841,10 @@ impl<S: Sut> World<S> {
             match (v, exp_ok) {
                 (Ok(Verdict::Ok), Some(true)) | (Ok(Verdict::Err { .. }), Some(false)) | (Ok(_), None) => {}
                 (Ok(v), Some(e)) => {
-                    return self.fail(
-                        "validate.deliver",
-                        format!("node {} K={:x}: validate_op({}) = {}, expected {}", node, k, S::op_dbg(&op), v.show(), if e { "Ok (no update of its actor is skipped)" } else { "an ordering error (a gap)" }),
-                    )
+                    let d = format!("node {} K={:x}: validate_op({}) = {}, expected {}", node, k, S::op_dbg(&op), v.show(), if e { "Ok (no update of its actor is skipped)" } else { "an ordering error (a gap)" });
+                    if !self.soft_validate("validate.deliver", &v, e, d.clone()) {
+                        return self.fail("validate.deliver", d);
+                    }
                 }
                 (Err(p), _) => return self.fail("validate.deliver", format!("validate_op panicked: {}", p)),
             }
